@@ -292,6 +292,14 @@ func baselineCmd() {
 			locals[fn.String()] = localSigs(fn)
 		}
 	}
+	// field heaps of the module's structs (see newFieldHeap)
+	var fields []string
+	for f, owner := range ld.fieldOwner {
+		fields = append(fields, "F!"+owner+"."+f.Name())
+	}
+	sort.Strings(fields)
+	fb, _ := json.MarshalIndent(fields, "", " ")
+	os.WriteFile(filepath.Join(verifDir(), "baseline", "fields.json"), fb, 0o644)
 	loops := map[string][]string{}
 	for _, fc := range cs.Funcs {
 		if fc.IsIface || fc.Missing {
